@@ -559,7 +559,7 @@ def check_routing_inlined(ctx, rule, sfn):
                where=prog.fns[key].span, detail={"problems": problems, "args": [show(x)[:100] for x in args], "chain": chain},
                sample={"entry": key, "args": [show(x)[:80] for x in args[1:]], "chain": chain})
     sites = structure_call_sites(prog, sfn)
-    stray = sorted({f.key for f, _ in sites} - covered)
+    stray = sorted({f.key for f, _ in sites} - covered - prog.fully_inlined)
     ctx.ob(rule, "who-may-call:%s" % sfn, not stray,
            "every direct call of %s lies on the call chain of a table entry point (no other function builds this structure)" % sfn,
            detail={"uncovered_callers": stray})
